@@ -17,7 +17,10 @@ RULE = ("Hypothesis draws a square operator with simple, well-separated spectrum
         "has |A v - lam v| <= tol |A||v| with v != 0; vectors linearly independent (orthonormal for self-adjoint A); the "
         "multiset of values equals the k eigenvalues of largest (LM) / smallest (SM) magnitude of numpy.linalg.eigvals(M), ties "
         "(conjugate pairs split by k) accepting either member; k = n reproduces the spectrum; eigmax/eigmin equal the k=1 "
-        "answer. Non-trivial: indefinite, non-normal or complex input, or k < n, or cap != n.")
+        "answer. Non-trivial: indefinite, non-normal or complex input, or k < n, or cap != n."
+        " Further: Krylov tolerance 0, one eigenvalue exactly 0 or 1e-9, the algorithm object used before on a smaller"
+        " operator, explicit start vectors of another dtype / precision (results of a double-precision operator must"
+        " be double precision).")
 ASSUMPTIONS = [
     "eigenpair residual tolerance 1e-6 |A||v| (1e-3 relative for PowerIteration on dominance ratio <= 0.5); selection compared at 1e-6 |A| cond(X)",
     "AssertionError from the selected rule (Eigh/Lanczos on undeclared operators, PowerIteration with k != 1) is an in-contract refusal",
